@@ -41,6 +41,18 @@ func minimise(t *testing.T, sc *Scenario, plan *Plan, v Violation) (*Plan, *Outc
 			for i := 0; i+chunk <= len(best.Ops); {
 				c := best.Clone()
 				c.Ops = append(c.Ops[:i:i], c.Ops[i+chunk:]...)
+				// boundaries such as "tail starts at op k" move with the operations before them
+				for _, key := range []string{"tail_from", "probe_from"} {
+					if tf, ok := c.Cfg.Extra[key]; ok {
+						removedBefore := int64(0)
+						for j := i; j < i+chunk; j++ {
+							if int64(j) < tf {
+								removedBefore++
+							}
+						}
+						c.Cfg.Extra[key] = tf - removedBefore
+					}
+				}
 				if len(c.Ops) > 0 && fails(c) {
 					best = c
 					changed = true
